@@ -444,7 +444,12 @@ def specGet {α} (rs : List (List α)) : Index → Except Err (SRes α)
   | .two (.list l _) (.slice cs) =>
     bindE (mapE (fun i => bindE (npIndex rs i) fun row => npSlice row cs) l) fun out => .ok (SRes.rows out)
   | .two (.list l _) (.list l2 _) =>
+    -- paired lists; a one-element list on either side is broadcast, as numpy does
     if l.length = l2.length then bindE (mapE (cell rs) (l.zip l2)) fun out => .ok (SRes.arr out)
+    else if l2.length = 1 then
+      bindE (mapE (fun i => cell rs (i, l2.headD 0)) l) fun out => .ok (SRes.arr out)
+    else if l.length = 1 ∧ l2 ≠ [] then
+      bindE (mapE (fun j => cell rs (l.headD 0, j)) l2) fun out => .ok (SRes.arr out)
     else .error .other
   | .mask m => .ok (.arr ((rs.zip (rows m)).map (fun p => maskRow p.1 p.2)).flatten)
 
